@@ -169,6 +169,18 @@ def run(tier):
         for pos in range(len(t) + 1):
             for b in (list(range(0x7f, 0x100)) if full or pos % 3 == 0 else [0x7f, 0x80, 0xc3, 0xff]):
                 bad.append(("hibyte", t[:pos] + chr(b) + t[pos:], {"pos": pos, "byte": b, "tmpl": t}))
+    # control bytes (outside printable ASCII as well; tab, CR and LF are blanks / line ends) at every position
+    for t in TEMPLATES:
+        for pos in range(len(t) + 1):
+            for b in ([x for x in range(1, 0x20) if x not in (9, 10, 13)] if full or pos % 2 == 0 else [0x01, 0x0b, 0x1f]):
+                bad.append(("ctlbyte", t[:pos] + chr(b) + t[pos:], {"pos": pos, "byte": b, "tmpl": t}))
+    # a printable character that belongs to no token, inside a mnemonic or register name: the name is then unknown
+    INNER = "!\"#$&'()./<=>?@\\^_`{|}~"
+    for t in TEMPLATES + ["setnbe r9b", "cmovne r10d, r11d", "movq xmm9, r12"]:
+        for pos in range(1, len(t)):
+            if t[pos - 1].isalpha() and t[pos].isalnum() and "0x" not in t[max(0, pos - 2):pos + 1]:
+                for ch in (INNER if full or pos % 2 else "!~_."):
+                    bad.append(("innerjunk", t[:pos] + ch + t[pos:], {"pos": pos, "char": ch, "tmpl": t}))
     # families (iii) and (iv): nasm is the referee for "invalid" as well - a line nasm assembles is not demanded to be rejected
     ref = oracle.nasm_many([t for fam, t, m in bad if fam in ("scale", "spindex", "syntax", "addrreg")])
     nref = len(bad)
@@ -213,7 +225,7 @@ def run(tier):
     v.cov["rule"] = ("(i) every spec mnemonic x every operand-kind tuple over {scalar reg, xmm, ymm, memory, immediate} with 0-4 operands (781 tuples); a tuple is 'not defined in x86-64' iff nasm rejects ALL its "
                      "instantiations (live referee, %d lines this run), then instantiated for the library; (ii) every one-character edit of every register name that is lexically a name and not a register/keyword, in "
                      "register, memory-base and index positions; (iii) scales 0,3,5,6,7,9,10,16,42 in both factor orders; the stack pointer as scaled index, as index of itself, with every base; 8/16-bit, MMX, XMM and YMM registers as base or index and base/index of different widths; (iv) bracket / comma / "
-                     "operand-after-immediate / empty-operand / unknown-mnemonic syntax errors; (v) bytes 0x7f-0xff at positions of 8 template lines; (vi) lines of (i)-(iv) behind 1-3 junk characters (every printable non-letter except ';', '%%' and ':'). Each alone and first/middle/last in a program with valid neighbours, "
+                     "operand-after-immediate / empty-operand / unknown-mnemonic syntax errors; (v) bytes 0x7f-0xff and control bytes 0x01-0x1f (except tab, CR, LF) at positions of 8 template lines, printable non-token characters inside mnemonics and register names; (vi) lines of (i)-(iv) behind 1-3 junk characters (every printable non-letter except ';', '%%' and ':'). Each alone and first/middle/last in a program with valid neighbours, "
                      "option combos sampled. Oracle: rc == EXIT_FAILURE and no byte at or after the rejected line's start differs from the prefill" % nnasm)
     v.cov["exhaustive"] = False
     v.cov.update(stats)
